@@ -47,6 +47,125 @@ fn rel_of(abs: &str) -> Option<String> {
     }
 }
 
+/// Requests for the wave of servers started after a kill: the client whose server inherits the
+/// killed server's process id re-writes (shorter bodies) the paths the killed one was writing.
+fn second_wave(sc: &HubSc, killed: usize) -> HubSc {
+    let mut r = Rng::new(sc.seed ^ 0x2EC0_0D_0A_u64);
+    let n = sc.clients.len();
+    let (_, mut clients) = gen_clients(&mut r, n, false, 2);
+    let mut reqs = Vec::new();
+    for q in &sc.clients[killed].reqs {
+        if let Req::Put { path, .. } = q {
+            if !reqs.iter().any(|x| matches!(x, Req::Put { path: p2, .. } if p2 == path)) {
+                reqs.push(Req::Put { path: path.clone(), expected: Exp::Learned, size: 24 + r.below(60) as u32, declared: Declared::Valid, shared_body: None });
+            }
+        }
+    }
+    reqs.push(Req::List);
+    clients[killed] = ClientProg { reqs, chunk_seed: r.next_u64(), magic: true, bye: true, pipeline: false };
+    HubSc {
+        seed: r.next_u64(),
+        init: Vec::new(),
+        clients,
+        policy: PolicySpec::random(&mut r),
+        pipe_cap: 65536,
+        short_read_pct: 0,
+        kill: None,
+        sentinels: false,
+        io_fault: None,
+    }
+}
+
+/// One wave of servers and clients in world `w`, judged by the C10 clauses.
+fn phase(sc: &HubSc, w: World, init: BTreeMap<String, Vec<u8>>, allowed: &BTreeMap<String, BTreeSet<[u8; 32]>>, rep: &mut RunReport) -> Option<HubRun> {
+    let allowed = Arc::new(allowed.clone());
+    let first_bad: Arc<Mutex<Option<String>>> = Arc::new(Mutex::new(None));
+    let fb = first_bad.clone();
+    let al = allowed.clone();
+    let hook: StepHook = Box::new(move |st, rec| {
+        if !rec.effect || rec.host != HUB {
+            return Ok(());
+        }
+        for abs in [&rec.path, &rec.path2] {
+            let Some(rel) = rel_of(abs) else { continue };
+            let Some(bytes) = st.world.hosts.get(HUB).and_then(|f| f.get_file(abs)) else {
+                continue;
+            };
+            let ok = al.get(&rel).map_or(false, |s| s.contains(&b3(&bytes)));
+            if !ok {
+                let msg = format!(
+                    "after step {} ({:?} by pid {}), hub path {rel:?} holds {} bytes (blake3 {}) that are neither its initial content nor the complete body of a verified Put addressed to it",
+                    rec.seq, rec.kind, rec.pid, bytes.len(), short_hex(&b3(&bytes))
+                );
+                let mut g = fb.lock().unwrap();
+                if g.is_none() {
+                    *g = Some(msg.clone());
+                }
+                return Err(msg);
+            }
+        }
+        Ok(())
+    });
+    let run = run_hub_in(sc, w, init, Some(hook));
+    rep.execs = 1;
+    rep.steps = run.out.stats.steps;
+    rep.shape = run.out.shape;
+    hub_probes(rep, &run);
+    rep.fault("server_kill", run.out.stats.kills);
+    rep.fault("injected_io_error", run.out.stats.injected_errors);
+    rep.fault("short_write", run.out.stats.short_writes);
+    let invalid = sc.clients.iter().flat_map(|c| c.reqs.iter()).any(|q| matches!(q, Req::Put { declared, .. } if *declared != Declared::Valid));
+    if invalid {
+        rep.fault("invalid_put", 1);
+    }
+    rep.nontrivial = rep.probes.contains_key("overlapping_puts_same_path") || run.out.stats.kills > 0 || invalid;
+    if run.out.budget_exceeded {
+        rep.harness_error = Some("op budget exceeded".into());
+        return None;
+    }
+    if let Some(m) = first_bad.lock().unwrap().clone() {
+        rep.fail("c10.path_invariant", "unverified-or-mixed-bytes-at-live-path", m);
+        return None;
+    }
+    // final sweep over the whole visible tree (catches anything the incremental check missed)
+    for (rel, bytes) in visible_tree(&run.out.world) {
+        if !allowed.get(&rel).map_or(false, |s| s.contains(&b3(&bytes))) {
+            rep.fail("c10.path_invariant", "unverified-or-mixed-bytes-at-live-path", format!("at the end, hub path {rel:?} holds {} bytes (blake3 {}) of no verified write", bytes.len(), short_hex(&b3(&bytes))));
+            return None;
+        }
+    }
+    // Get replies: exactly len bytes that hash to hash
+    for op in all_ops(&run.logs) {
+        if let (OpKindH::Get { path }, Some((_, Reply::Content { len, hash, body }))) = (&op.kind, &op.resp) {
+            if body.len() as u64 != *len || b3(body) != *hash {
+                // a server killed mid-reply legitimately truncates the stream
+                let killed = sc.kill.map_or(false, |(k, _, _)| k as usize == op.client) && run.out.stats.kills > 0;
+                // ... and so does a server that stops on an I/O error in the middle of the content
+                let failed = sc.io_fault.map_or(false, |(k, _, _)| k as usize == op.client) && run.out.stats.injected_errors > 0 && (body.len() as u64) < *len;
+                if !killed && !failed {
+                    rep.fail("c10.get_consistent", "get-len-hash-bytes-disagree",
+                        format!("Get {path:?}: announced len={len} hash={}, delivered {} bytes hashing to {}", short_hex(hash), body.len(), short_hex(&b3(body))));
+                    return None;
+                }
+            }
+        }
+    }
+    // surviving servers must finish their sessions
+    if run.out.deadlock {
+        rep.fail("c10.progress", "hub-deadlock", "no process can make progress".into());
+        return None;
+    }
+    for p in &run.out.procs {
+        if p.role.starts_with("serve") {
+            if let ExitKind::Aborted(m) = &p.exit {
+                rep.fail("c10.no_crash", "server-panicked", format!("{}: {m}", p.role));
+                return None;
+            }
+        }
+    }
+    Some(run)
+}
+
 impl Check for C10 {
     type Sc = HubSc;
     fn id(&self) -> &'static str {
@@ -56,7 +175,7 @@ impl Check for C10 {
         "exploration"
     }
     fn rule(&self) -> String {
-        "request programs and interleavings as in C03 plus invalid Puts (wrong declared hash, body shorter than len then close, excess bytes) and, in a third of the runs, one server killed before a seeded k-th file-system call (thorough: k swept over a reference run). After every step the kernel applies, each live hub path touched by that step is compared with the set of contents it may legitimately hold; every Get reply must deliver exactly len bytes hashing to hash. Non-trivial = overlapping Puts on one path, a kill that fired, or an invalid Put; distinct = hash of the interleaved op trace".into()
+        "request programs and interleavings as in C03 plus invalid Puts (wrong declared hash, body shorter than len then close, excess bytes) and, in a third of the runs, one server killed before a seeded k-th file-system call (thorough: k swept over a reference run); in a quarter of the remaining runs one file-system call of one server fails with an injected errno or one of its file writes is short. After every step the kernel applies, each live hub path touched by that step is compared with the set of contents it may legitimately hold; every Get reply must deliver exactly len bytes hashing to hash. Non-trivial = overlapping Puts on one path, a kill that fired, or an invalid Put; distinct = hash of the interleaved op trace".into()
     }
     fn assumptions(&self) -> Vec<String> {
         vec!["as C03; a killed server's flock and descriptors are released as the OS does".into()]
@@ -90,6 +209,13 @@ impl Check for C10 {
         } else {
             None
         };
+        // without a kill, a quarter of the runs have one failing (or short) file-system call in a server
+        let io_fault = if kill.is_none() && r.below(4) == 0 {
+            let srv = r.below(n as u64) as u32;
+            Some(super::c03::gen_io_fault(&mut r, srv))
+        } else {
+            None
+        };
         HubSc {
             seed: r.next_u64(),
             init,
@@ -99,7 +225,7 @@ impl Check for C10 {
             short_read_pct: *r.pick(&[0u32, 10, 50]),
             kill,
             sentinels: false,
-            io_fault: None,
+            io_fault,
         }
     }
     fn execute(&self, sc: &HubSc) -> RunReport {
@@ -137,86 +263,38 @@ impl Check for C10 {
             return rep;
         }
         let mut rep = RunReport::default();
-        let (_, init) = build_world(sc);
-        let allowed = Arc::new(allowed_map(sc, &init));
-        let first_bad: Arc<Mutex<Option<String>>> = Arc::new(Mutex::new(None));
-        let fb = first_bad.clone();
-        let al = allowed.clone();
-        let hook: StepHook = Box::new(move |st, rec| {
-            if !rec.effect || rec.host != HUB {
-                return Ok(());
-            }
-            for abs in [&rec.path, &rec.path2] {
-                let Some(rel) = rel_of(abs) else { continue };
-                let Some(bytes) = st.world.hosts.get(HUB).and_then(|f| f.get_file(abs)) else {
-                    continue;
-                };
-                let ok = al.get(&rel).map_or(false, |s| s.contains(&b3(&bytes)));
-                if !ok {
-                    let msg = format!(
-                        "after step {} ({:?} by pid {}), hub path {rel:?} holds {} bytes (blake3 {}) that are neither its initial content nor the complete body of a verified Put addressed to it",
-                        rec.seq, rec.kind, rec.pid, bytes.len(), short_hex(&b3(&bytes))
-                    );
-                    let mut g = fb.lock().unwrap();
-                    if g.is_none() {
-                        *g = Some(msg.clone());
-                    }
-                    return Err(msg);
+        let (w0, init) = build_world(sc);
+        let allowed = allowed_map(sc, &init);
+        let Some(run) = phase(sc, w0, init, &allowed, &mut rep) else { return rep };
+        // second wave: after a kill, new servers are started on what the first wave left behind
+        // (leftover staging files included). The new processes get the SAME process ids (a fresh
+        // process table: pid wrap-around / a restarted container), and the one that inherits the
+        // killed server's id writes shorter bodies to the paths the killed one was writing.
+        if run.out.stats.kills > 0 {
+            if let Some((k, _, _)) = sc.kill {
+                let sc2 = second_wave(sc, k as usize);
+                let init2: BTreeMap<String, Vec<u8>> = visible_tree(&run.out.world);
+                let mut allowed2 = allowed.clone();
+                for (p, set) in allowed_map(&sc2, &init2) {
+                    allowed2.entry(p).or_default().extend(set);
                 }
-            }
-            Ok(())
-        });
-        let run = run_hub(sc, Some(hook));
-        rep.execs = 1;
-        rep.steps = run.out.stats.steps;
-        rep.shape = run.out.shape;
-        hub_probes(&mut rep, &run);
-        rep.fault("server_kill", run.out.stats.kills);
-        let invalid = sc.clients.iter().flat_map(|c| c.reqs.iter()).any(|q| matches!(q, Req::Put { declared, .. } if *declared != Declared::Valid));
-        if invalid {
-            rep.fault("invalid_put", 1);
-        }
-        rep.nontrivial = rep.probes.contains_key("overlapping_puts_same_path") || run.out.stats.kills > 0 || invalid;
-        if run.out.budget_exceeded {
-            rep.harness_error = Some("op budget exceeded".into());
-            return rep;
-        }
-        if let Some(m) = first_bad.lock().unwrap().clone() {
-            rep.fail("c10.path_invariant", "unverified-or-mixed-bytes-at-live-path", m);
-            return rep;
-        }
-        // final sweep over the whole visible tree (catches anything the incremental check missed)
-        for (rel, bytes) in visible_tree(&run.out.world) {
-            if !allowed.get(&rel).map_or(false, |s| s.contains(&b3(&bytes))) {
-                rep.fail("c10.path_invariant", "unverified-or-mixed-bytes-at-live-path", format!("at the end, hub path {rel:?} holds {} bytes (blake3 {}) of no verified write", bytes.len(), short_hex(&b3(&bytes))));
-                return rep;
-            }
-        }
-        // Get replies: exactly len bytes that hash to hash
-        for op in all_ops(&run.logs) {
-            if let (OpKindH::Get { path }, Some((_, Reply::Content { len, hash, body }))) = (&op.kind, &op.resp) {
-                if body.len() as u64 != *len || b3(body) != *hash {
-                    // a server killed mid-reply legitimately truncates the stream
-                    let killed = sc.kill.map_or(false, |(k, _, _)| k as usize == op.client) && run.out.stats.kills > 0;
-                    if !killed {
-                        rep.fail("c10.get_consistent", "get-len-hash-bytes-disagree",
-                            format!("Get {path:?}: announced len={len} hash={}, delivered {} bytes hashing to {}", short_hex(hash), body.len(), short_hex(&b3(body))));
-                        return rep;
-                    }
-                }
-            }
-        }
-        // surviving servers must finish their sessions
-        if run.out.deadlock {
-            rep.fail("c10.progress", "hub-deadlock", "no process can make progress".into());
-            return rep;
-        }
-        for p in &run.out.procs {
-            if p.role.starts_with("serve") {
-                if let ExitKind::Aborted(m) = &p.exit {
-                    rep.fail("c10.no_crash", "server-panicked", format!("{}: {m}", p.role));
+                let mut rep2 = RunReport::default();
+                let r2 = phase(&sc2, run.out.world.clone(), init2, &allowed2, &mut rep2);
+                rep.execs += rep2.execs;
+                rep.steps += rep2.steps;
+                rep.probe("second_wave_after_kill", 1);
+                if rep2.violation.is_some() {
+                    rep.violation = rep2.violation.map(|mut v| {
+                        v.detail = format!("second wave (servers restarted with the same process ids after the kill): {}", v.detail);
+                        v
+                    });
                     return rep;
                 }
+                if rep2.harness_error.is_some() {
+                    rep.harness_error = rep2.harness_error;
+                    return rep;
+                }
+                let _ = r2;
             }
         }
         rep
